@@ -50,6 +50,9 @@ def objective_terms(at, P, ps, pg, ins, measurables):
     for (name, t, pops, weight) in measurables:
         tt = np.atleast_1d(np.array(t, dtype=float))
         mask = (r.model.t == tt[0]) if len(tt) == 1 else ((r.model.t >= tt[0]) & (r.model.t < tt[1]))
+        if pg is not None and name in pg.programs:  # spending on a program: the amounts in force at the output times (reported by the result, not recomputed)
+            terms += [float(weight * x) for x in np.asarray(r.get_alloc()[name], dtype=float)[mask]]
+            continue
         for pop in r.model.pops:
             if pops and pop.name not in pops:
                 continue
@@ -63,13 +66,13 @@ def objective_terms(at, P, ps, pg, ins, measurables):
     return terms
 
 
-def budget_problem(at, model="udt", pops=None, single_year=False, seed=1, maxiters=5, upper=3.0):
+def budget_problem(at, model="udt", pops=None, single_year=False, seed=1, maxiters=5, upper=3.0, dt=None):
     from atomica.optimization import SpendingAdjustment, TotalSpendConstraint, Optimization, MaximizeMeasurable, MinimizeMeasurable
 
     P = at.demo(model, do_run=False)
     ps, pg = P.parsets[0], P.progsets[0]
     start = 2018.0
-    P.settings.update_time_vector(end=2025.0)
+    P.settings.update_time_vector(end=2025.0, dt=dt)
     progs = [p for p in pg.programs.values() if p.spend_data.has_data and float(p.spend_data.interpolate(start, method="previous")[0]) > 0][:3]
     ins = at.ProgramInstructions(start_year=start, alloc=pg)
     adjs = [at.SpendingAdjustment(p.name, start, "rel", 0.25, upper) for p in progs]
@@ -115,10 +118,80 @@ def run_budget(at, cnt, prob, seed, crash_at=None, via_project=False):
     return outcome, ret, before, after, cnt.n
 
 
-def calib_problem(at, model="udt"):
+def library_objective(at, P, ps, pg, ins0, opt, ins):
+    """The objective the library computes for instructions `ins` (baselines from the original instructions ins0)."""
+    import pickle
+
+    m0 = at.Model(P.settings, P.framework, ps, pg, ins0)
+    baselines = opt.get_baselines(pickle.dumps(m0))
+    m = at.Model(P.settings, P.framework, ps, pg, ins)
+    m.process()
+    return float(opt.compute_objective(m, baselines))
+
+
+def output_sum(at, P, ps, pg, ins, name, t, pops=None):
+    return float(sum(objective_terms(at, P, ps, pg, ins, [(name, t, pops, 1.0)])))
+
+
+def hard_target_problems(at, thorough):
+    """Money minimisation subject to one hard target, started from a scaled-up allocation that meets it. Yields
+    (label, P, ps, pg, ins0, opt, x0, measurables for the finite objective, judge(ins) -> met?)."""
+    import sciris as sc
+    from atomica.optimization import SpendingAdjustment, Optimization, MinimizeMeasurable, AtLeastMeasurable, AtMostMeasurable, IncreaseByMeasurable, DecreaseByMeasurable
+
+    for model in (["udt"] + (["hiv"] if thorough else [])):
+        P = at.demo(model, do_run=False)
+        ps, pg = P.parsets[0], P.progsets[0]
+        start = 2018.0
+        P.settings.update_time_vector(end=2024.0)
+        progs = [p for p in pg.programs.values() if p.spend_data.has_data and float(p.spend_data.interpolate(start, method="previous")[0]) > 0][:2]
+        names = [p.name for p in progs]
+        ins0 = at.ProgramInstructions(start_year=start, alloc=pg)
+        base_spend = [float(ins0.alloc[n].get(start)) for n in names]
+        x0 = [1.5 * v for v in base_spend]
+
+        def with_spend(factor):
+            i = sc.dcp(ins0)
+            for n, v in zip(names, base_spend):
+                i.alloc[n].insert(start, v * factor)
+            return i
+
+        comps = [c for c in P.framework.comps.index if P.framework.comps.at[c, "is sink"] != "y" and P.framework.comps.at[c, "is source"] != "y" and P.framework.comps.at[c, "is junction"] != "y"]
+        for t in ([2021.0], [2019.0, 2022.0]):
+            done = set()
+            for comp in comps:
+                vb = output_sum(at, P, ps, pg, ins0, comp, t)
+                v0 = output_sum(at, P, ps, pg, with_spend(1.5), comp, t)
+                vl = output_sum(at, P, ps, pg, with_spend(0.25), comp, t)
+                if not (abs(v0 - vl) > 1e-6 * max(1.0, abs(v0)) and abs(v0 - vb) > 1e-6 * max(1.0, abs(v0))):
+                    continue  # spending does not move this output
+                up = v0 > vl
+                if up in done:
+                    continue
+                done.add(up)
+                if up:
+                    targets = [("at least", AtLeastMeasurable(comp, t, (v0 + vl) / 2), lambda v, th=(v0 + vl) / 2: v >= th),
+                               ("increase by (abs)", IncreaseByMeasurable(comp, t, (v0 - vb) / 2, target_type="abs"), lambda v, th=vb + (v0 - vb) / 2: v >= th),
+                               ("increase by (frac)", IncreaseByMeasurable(comp, t, (v0 - vb) / (2 * vb)), lambda v, th=vb * (1 + (v0 - vb) / (2 * vb)): v >= th * (1 - 1e-12))]
+                else:
+                    targets = [("at most", AtMostMeasurable(comp, t, (v0 + vl) / 2), lambda v, th=(v0 + vl) / 2: v <= th),
+                               ("decrease by (abs)", DecreaseByMeasurable(comp, t, (vb - v0) / 2, target_type="abs"), lambda v, th=vb - (vb - v0) / 2: v <= th),
+                               ("decrease by (frac)", DecreaseByMeasurable(comp, t, (vb - v0) / (2 * vb)), lambda v, th=vb * (1 - (vb - v0) / (2 * vb)): v <= th * (1 + 1e-12))]
+                for tname, hard, met in targets:
+                    adjs = [SpendingAdjustment(n, start, "rel", 0.25, 3.0) for n in names]
+                    meas = [MinimizeMeasurable(n, [start, start + 1.0]) for n in names] + [hard]
+                    opt = Optimization(name="o", adjustments=adjs, measurables=meas, maxiters=12 if thorough else 8, method="asd")
+                    finite = [(n, [start, start + 1.0], None, 1.0) for n in names]
+                    judge = lambda ins, comp=comp, t=t, met=met: bool(met(output_sum(at, P, ps, pg, ins, comp, t)))
+                    yield dict(model=model, target=tname, output=comp, t=t), P, ps, pg, ins0, opt, x0, names, start, finite, judge
+
+
+def calib_problem(at, model="udt", dt=None):
     """A calibration problem that is not already solved at the start: the library databooks mostly hold first-year data (which the
     initialisation reproduces), so two later data points, a few percent off the uncalibrated model, are added to every target."""
     P = at.demo(model, do_run=False)
+    if dt is not None:
+        P.settings.update_time_vector(dt=dt)
     ps = P.parsets[0]
     pops = list(ps.pop_names)
     pars = [p for p in P.framework.pars.index if P.framework.pars.at[p, "format"] in ("probability", "rate", "number") and p in ps.pars and P.framework.transitions.get(p)][:2]
@@ -186,7 +259,8 @@ def run(prop, tier):
                     x1 = [float(ret.alloc[p].get(start)) for p in prognames]
                     records.append(dict(id=rid, outcome=outcome, before=before, after=after, t0=FX.fixseq(t0_terms), t1=FX.fixseq(t1_terms),
                                         vals=FX.fixseq(x1), lows=FX.fixseq([0.25 * v for v in x0]), highs=FX.fixseq([3.0 * v for v in x0]),
-                                        total0=FX.fix(sum(x0)), total1=FX.fix(sum(x1)), hastotal=True))
+                                        total0=FX.fix(sum(x0)), total1=FX.fix(sum(x1)), hastotal=True, haslib=True,
+                                        lib0=FX.fix(library_objective(at, P, ps, pg, ins, opt, ins)), lib1=FX.fix(library_objective(at, P, ps, pg, ins, opt, ret))))
                     index[rid] = dict(label=label, evaluations=K, crash_at=None, f0=sum(t0_terms), f1=sum(t1_terms), x0=x0, x1=x1)
                     rid += 1
                     ks = range(1, K + 1) if (thorough or K <= 14) else sorted(set(list(range(1, 9)) + [K - 2, K - 1, K]))
@@ -197,6 +271,36 @@ def run(prop, tier):
                         index[rid] = dict(label=label, evaluations=K, crash_at=kk, outcome=outcome)
                         observed_restore.setdefault(label["entry"], []).append(before == after)
                         rid += 1
+        # ---------------- money minimisation under a hard target (every target class, single years and periods), from a scaled-up start
+        from atomica.optimization import optimize as _optimize
+
+        nhard = 0
+        for (label, P, ps, pg, ins0, opt, x0, names, start, finite, judge) in hard_target_problems(at, thorough):
+            label = dict(kind="money minimisation", entry="optimize", **label)
+            before = caller_digest(P, ps, pg, ins0)
+            try:
+                ret = _optimize(P, opt, ps, pg, ins0, x0=np.array(x0), optim_args={"randseed": 1})
+            except Exception as ex:
+                V.violation("C15 optimisation raised %s (%s)" % (type(ex).__name__, label["target"]), dict(label=label, error=str(ex)[:300]))
+                continue
+            after = caller_digest(P, ps, pg, ins0)
+            import sciris as _sc
+
+            ins_start = _sc.dcp(ins0)
+            for n, v in zip(names, x0):
+                ins_start.alloc[n].insert(start, v)
+            t0_terms = objective_terms(at, P, ps, pg, ins_start, finite)
+            t1_terms = objective_terms(at, P, ps, pg, ret, finite)
+            met0, met1 = judge(ins_start), judge(ret)
+            x1 = [float(ret.alloc[n].get(start)) for n in names]
+            lib0, lib1 = library_objective(at, P, ps, pg, ins0, opt, ins_start), library_objective(at, P, ps, pg, ins0, opt, ret)
+            records.append(dict(id=rid, outcome="returned", before=before, after=after, t0=FX.fixseq(t0_terms), t1=FX.fixseq(t1_terms), vals=FX.fixseq(x1),
+                                lows=FX.fixseq([v / 1.5 * 0.25 for v in x0]), highs=FX.fixseq([v / 1.5 * 3.0 for v in x0]), total0=FX.fix(0.0), total1=FX.fix(0.0), hastotal=False,
+                                haslib=bool(np.isfinite(lib0) and np.isfinite(lib1) and met0 and met1), lib0=FX.fix(lib0 if np.isfinite(lib0) else 0.0), lib1=FX.fix(lib1 if np.isfinite(lib1) else 0.0), hard=[[met0, met1]]))
+            index[rid] = dict(label=label, f0=sum(t0_terms), f1=sum(t1_terms), x0=x0, x1=x1, target_met_at_start=met0, target_met_at_return=met1, library_objective=[lib0, lib1])
+            rid += 1
+            nhard += 1
+        cov["hard_target_problems"] = nhard
         # ---------------- calibration
         for seed in seeds:
             P, ps, adjustables, measurables = calib_problem(at)
@@ -231,6 +335,30 @@ def run(prop, tier):
                 index[rid] = dict(label=label, evaluations=K, crash_at=kk, outcome=outcome)
                 observed_restore.setdefault("Project.calibrate", []).append(before == after)
                 rid += 1
+        # ---------------- step sizes that are not binary fractions: the shortened end year has to come back exactly
+        for dt in ([0.3, 0.7] if not thorough else [0.3, 0.7, 1.0 / 3, 0.1, 1.0 / 12, 0.35]):
+            for kk in (None, 2):
+                P, ps, adjustables, measurables = calib_problem(at, dt=dt)
+                label = dict(kind="calibration", entry="Project.calibrate", seed=1, dt=dt)
+                before = caller_digest(P, ps, None, None)
+                cnt.n, cnt.crash_at = 0, kk
+                try:
+                    P.calibrate(parset=ps, adjustables=[a for a in adjustables], measurables=[m for m in measurables], max_time=30, maxiters=2, randseed=1)
+                    outcome = "returned"
+                except Injected:
+                    outcome = "aborted"
+                finally:
+                    cnt.crash_at = None
+                after = caller_digest(P, ps, None, None)
+                records.append(dict(id=rid, outcome=outcome, before=before, after=after, t0=[], t1=[], vals=[], lows=[], highs=[], total0=FX.fix(0.0), total1=FX.fix(0.0), hastotal=False))
+                index[rid] = dict(label=label, evaluations=cnt.n, crash_at=kk, outcome=outcome)
+                rid += 1
+                prob2 = budget_problem(at, model="udt", pops=None, single_year=False, dt=dt, maxiters=2)
+                label = dict(kind="budget optimisation", entry="Project.run_optimization", seed=1, dt=dt)
+                outcome, ret, before, after, K = run_budget(at, cnt, prob2, 1, kk, True)
+                records.append(dict(id=rid, outcome=outcome, before=before, after=after, t0=[], t1=[], vals=[], lows=[], highs=[], total0=FX.fix(0.0), total1=FX.fix(0.0), hastotal=False))
+                index[rid] = dict(label=label, evaluations=K, crash_at=kk, outcome=outcome)
+                rid += 1
     finally:
         cnt.close()
     # ---------------- P_spec: the control-flow design under the constant observed for each entry point
@@ -247,6 +375,11 @@ def run(prop, tier):
             cov.setdefault("design_refuted", []).append(dict(entry=entry, violated=r.violated, note="the control flow observed on the real code admits the violation; the failing real runs are reported below"))
         else:
             C.tlc_ok(r, "OptLoop " + entry)
+    for r_ in records:
+        r_.setdefault("haslib", False)
+        r_.setdefault("lib0", FX.fix(0.0))
+        r_.setdefault("lib1", FX.fix(0.0))
+        r_.setdefault("hard", [])
     bad, states = C.validate_batch(["Big", "OptLoopTrace"], "OptLoopTrace", records, chunks=4)
     cov["states"] += states
     cov["transitions"] += states
